@@ -730,6 +730,10 @@ func (s *State) applyFunction(name string, fn object.Object, args []object.Objec
 	curState := s.env
 	s.env = nenv
 	oldOut := s.Out
+	if s.outDepth == 0 {
+		s.topOut = oldOut
+	}
+	s.outDepth++
 	buf := bytes.Buffer{}
 	s.Out = &buf
 	// This is 0 as the env is new, but... we just want to make sure there is
@@ -741,6 +745,7 @@ func (s *State) applyFunction(name string, fn object.Object, args []object.Objec
 	// restore the previous env/state.
 	s.env = curState
 	s.Out = oldOut
+	s.outDepth--
 	var output []byte
 	if buf.Len() > 0 {
 		output = buf.Bytes()
